@@ -305,20 +305,13 @@ theorem C07.simplex_kkt_sufficient {ι : Type} (I : Finset ι) (x z : ι → K) 
     _ ≤ 0 := le_refl _
 
 
-/- FULL STATEMENT (not proved): for every list `x ≠ []` and `r ≥ 0`,
-   `simplexTau r x = some τ ∧ sumK (x.map fun xi => maxK (xi − τ) 0) = r`
-   for the executable `simplexTau` (mergeSort + left fold keeping the last index with crit ≥ 0).
-   Proved below: the arithmetic core, index-wise over a non-increasing sequence.  Missing: the
-   induction tying the fold over `List.mergeSort` to these index-wise hypotheses (sortedness,
-   permutation invariance of the sum, "last index with crit ≥ 0").  In its place the driver
-   evaluates the residual `sumK p − r` exactly on every simplex input of every run and the
-   harness requires it to be 0 (`simplex/feasibility-checked` in the evidence). -/
-/-- The sorted-prefix rule of `proj_simplex` produces a feasible threshold: for a
+/-- Arithmetic core of `proj_simplex` (used by `C07.simplex_threshold_feasible` below): the
+sorted-prefix rule produces a feasible threshold: for a
 non-increasing `u`, if `i` is an index with `crit_i ≥ 0` whose successor (if any) has
 `crit_{i+1} < 0` (in particular the LAST index with `crit ≥ 0`, which is what
 `np.argwhere(crit >= 0).max()` selects), then `τ = (Σ_{k<i} u_k − r)/i` satisfies
 `Σ_k max(u_k − τ, 0) = r`. -/
-theorem C07.simplex_threshold_feasible_partial (n i : ℕ) (u : ℕ → K) (r : K)
+theorem C07.simplex_threshold_index (n i : ℕ) (u : ℕ → K) (r : K)
     (hi1 : 1 ≤ i) (hin : i ≤ n)
     (hanti : ∀ a b, a ≤ b → b < n → u b ≤ u a)
     (hcrit : 0 ≤ u (i - 1) - 1 / (i : K) * (∑ k ∈ range i, u k - r))
@@ -383,10 +376,106 @@ theorem C07.l1_list_minimises (E : Env K) (lam : K) (g : Option (List K)) (w x z
     linarith [this]
 
 
+/-- `IndicatorSumConstraint.proximal` on an array-weighted space (`x + τ/w`,
+`τ = (s − Σx)/Σ(1/w)`): the result has the prescribed sum and satisfies the projection
+inequality in the weighted inner product `Σ w_i a_i b_i`, for all positive weights. -/
+theorem C07.sumc_weighted_vi {ι : Type} (I : Finset ι) (hI : I.Nonempty) (w x z : ι → K) (sv : K)
+    (hw : ∀ i ∈ I, 0 < w i) (hz : ∑ i ∈ I, z i = sv) :
+    let tau := (sv - ∑ i ∈ I, x i) / ∑ i ∈ I, 1 / w i
+    (∑ i ∈ I, (x i + tau / w i) = sv) ∧
+    ∑ i ∈ I, w i * ((x i - (x i + tau / w i)) * (z i - (x i + tau / w i))) ≤ 0 := by
+  intro tau
+  have hS : 0 < ∑ i ∈ I, 1 / w i :=
+    Finset.sum_pos (fun i hi => one_div_pos.mpr (hw i hi)) hI
+  have hsum : ∑ i ∈ I, (x i + tau / w i) = sv := by
+    have e : ∀ i ∈ I, x i + tau / w i = x i + tau * (1 / w i) := by intro i _; ring
+    rw [Finset.sum_congr rfl e, Finset.sum_add_distrib, ← Finset.mul_sum]
+    simp only [tau]; field_simp; ring
+  refine ⟨hsum, ?_⟩
+  have e : ∀ i ∈ I, w i * ((x i - (x i + tau / w i)) * (z i - (x i + tau / w i)))
+      = -tau * (z i - (x i + tau / w i)) := by
+    intro i hi
+    have := ne_of_gt (hw i hi)
+    field_simp; ring
+  rw [Finset.sum_congr rfl e, ← Finset.mul_sum, Finset.sum_sub_distrib, hz, hsum]
+  simp
+
+/-- KKT sufficiency for `ProximalSimplex._call` on an array-weighted space: if
+`p = max(x − τ/w, 0)` entry-wise and `Σ p = r`, then `p` is in the simplex and satisfies the
+projection inequality in the weighted inner product against every `z ≥ 0` with `Σ z = r`. -/
+theorem C07.simplex_weighted_kkt_sufficient {ι : Type} (I : Finset ι) (w x z : ι → K) (tau r : K)
+    (hw : ∀ i ∈ I, 0 < w i)
+    (hp : ∑ i ∈ I, maxK (x i - tau / w i) 0 = r)
+    (hz0 : ∀ i ∈ I, 0 ≤ z i) (hz : ∑ i ∈ I, z i = r) :
+    (∀ i ∈ I, 0 ≤ maxK (x i - tau / w i) 0) ∧
+    ∑ i ∈ I, w i * ((x i - maxK (x i - tau / w i) 0) * (z i - maxK (x i - tau / w i) 0)) ≤ 0 := by
+  simp only [maxK_eq] at *
+  refine ⟨fun i _ => le_max_right _ _, ?_⟩
+  have key : ∀ i ∈ I, w i * ((x i - max (x i - tau / w i) 0) * (z i - max (x i - tau / w i) 0))
+      ≤ tau * (z i - max (x i - tau / w i) 0) := by
+    intro i hi
+    have hzi := hz0 i hi
+    have hwi := hw i hi
+    rcases le_total (x i - tau / w i) 0 with h | h
+    · rw [max_eq_right h]
+      have : w i * x i ≤ tau := by
+        have : x i ≤ tau / w i := by linarith
+        rwa [le_div_iff₀ hwi, mul_comm] at this
+      nlinarith
+    · rw [max_eq_left h]
+      have e : w i * ((x i - (x i - tau / w i)) * (z i - (x i - tau / w i)))
+          = tau * (z i - (x i - tau / w i)) := by field_simp; ring
+      rw [e]
+  calc _ ≤ ∑ i ∈ I, tau * (z i - max (x i - tau / w i) 0) := Finset.sum_le_sum key
+    _ = tau * (∑ i ∈ I, z i - ∑ i ∈ I, max (x i - tau / w i) 0) := by
+        rw [← Finset.mul_sum, Finset.sum_sub_distrib]
+    _ = 0 := by rw [hz, hp]; ring
+    _ ≤ 0 := le_refl _
+
+/-- `proj_simplex` is feasible on EVERY input: for every non-empty list `x` (any length, any
+order, ties included) and diameter `r ≥ 0`, the executable `simplexTau` (merge sort, cumulative
+sums, last index with `crit ≥ 0`) returns a threshold `τ` with `Σ max(x_i − τ, 0) = r`. -/
+theorem C07.simplex_threshold_feasible (r : K) (x : List K) (hx : x ≠ []) (hr : 0 ≤ r) :
+    ∃ tau, simplexTau r x = some tau ∧ sumK (x.map fun xi => maxK (xi - tau) 0) = r := by
+  set le' : K → K → Bool := fun a b => decide (b ≤ a) with hle
+  set xs := x.mergeSort le' with hxs
+  have hperm : xs.Perm x := List.mergeSort_perm x le'
+  have hlen : xs.length = x.length := hperm.length_eq
+  have hn : 0 < xs.length := by rw [hlen]; exact List.length_pos_iff.mpr hx
+  have hsorted : xs.Pairwise (fun a b => le' a b = true) :=
+    List.pairwise_mergeSort (by intro a b c; simp only [hle, decide_eq_true_eq]; intro h1 h2; exact le_trans h2 h1)
+      (by intro a b; simp only [hle, Bool.or_eq_true, decide_eq_true_eq]; exact le_total b a) x
+  set u : ℕ → K := fun k => xs.getD k 0 with hu
+  have hanti : ∀ a b, a ≤ b → b < xs.length → u b ≤ u a := by
+    intro a b hab hb
+    rcases Nat.eq_or_lt_of_le hab with h | h
+    · subst h; exact le_refl _
+    · have := (List.pairwise_iff_getElem.mp hsorted) a b (by omega) hb h
+      simp only [hle, decide_eq_true_eq] at this
+      simpa [hu, List.getD_eq_getElem?_getD, hb, (by omega : a < xs.length)] using this
+  have hinv := simplex_go_inv r hr xs xs.length 0 none (by omega) rfl
+  simp only [List.drop_zero, Nat.cast_zero, zero_add, Finset.range_zero, Finset.sum_empty] at hinv
+  have hgo : simplexTau r x = simplexTau.go r xs 1 0 none := rfl
+  cases hb : simplexTau.go r xs 1 0 none with
+  | none =>
+    rw [hb] at hinv
+    exact absurd hinv (by have : xs.length ≠ 0 := by omega
+                          exact this)
+  | some tau =>
+    rw [hb] at hinv
+    obtain ⟨i, hi1, hin, htau, hcrit, hnext⟩ := hinv
+    refine ⟨tau, by rw [hgo, hb], ?_⟩
+    have key := C07.simplex_threshold_index xs.length i u r hi1 hin hanti
+      (by rw [← htau]; exact hcrit) hnext
+    rw [← htau] at key
+    have e1 := sum_range_getD xs (fun v => maxK (v - tau) 0)
+    rw [sumK_eq_sum, ← (hperm.map _).sum_eq, ← e1]
+    exact key
+
 /-! Non-vacuity of the lifting theorems on concrete data. -/
 example : ∑ k ∈ Finset.range 3, maxK (uEx k
     - 1 / ((2 : ℕ) : ℚ) * (∑ k ∈ Finset.range 2, uEx k - 1)) 0 = 1 := by
-  apply C07.simplex_threshold_feasible_partial 3 2 uEx 1 (by norm_num) (by norm_num)
+  apply C07.simplex_threshold_index 3 2 uEx 1 (by norm_num) (by norm_num)
   · intro a b hab hb
     interval_cases b <;> interval_cases a <;> simp [uEx] <;> norm_num
   · simp [Finset.sum_range_succ, uEx]; norm_num
@@ -746,6 +835,83 @@ example : IsProx {y : ℝ | ‖y‖ ≤ 2} (fun _ => 0) 3
 
 
 end Abstract
+
+/-! ## composition with a scaled isometry, and whole expression trees -/
+section Comp
+variable {E F : Type} [NormedAddCommGroup E] [InnerProductSpace ℝ E]
+  [NormedAddCommGroup F] [InnerProductSpace ℝ F]
+
+/-- `proximal_composition`: for a linear `L` with adjoint `Lt` and `L Lt = μ·Id` (`μ > 0`; for
+the square matrices this is the code's documented `Lt L = μ·Id`),
+`x + (1/μ) Lt (prox_{μσ f}(L x) − L x)` is the proximal of `f ∘ L`. -/
+theorem C07.prox_composition (C : Set F) (f : F → ℝ) (P : ℝ → F → F) (L : E →ₗ[ℝ] F)
+    (Lt : F →ₗ[ℝ] E) (mu σ : ℝ) (hmu : 0 < mu)
+    (hadj : ∀ x y, inner ℝ (L x) y = inner ℝ x (Lt y)) (hLLt : ∀ y, L (Lt y) = mu • y)
+    (hP : IsProx C f (mu * σ) (P (mu * σ))) :
+    IsProx {z | L z ∈ C} (fun z => f (L z)) σ (proxComposition P L Lt mu σ) := by
+  intro x
+  obtain ⟨h1, h2⟩ := hP (L x)
+  set q := P (mu * σ) (L x) with hq
+  have hLp : L (proxComposition P L Lt mu σ x) = q := by
+    simp only [proxComposition, map_add, map_smul, hLLt, smul_smul, ← hq]
+    rw [one_div, inv_mul_cancel₀ (ne_of_gt hmu), one_smul]; abel
+  refine ⟨by simpa [hLp] using h1, fun z hz => ?_⟩
+  have h3 := h2 (L z) hz
+  simp only [hLp]
+  set p := proxComposition P L Lt mu σ x with hp
+  have hxp : x - p = (1 / mu) • Lt (L x - q) := by
+    simp only [hp, proxComposition, ← hq]
+    rw [sub_add_cancel_left, ← smul_neg, ← map_neg, neg_sub]
+  have e : inner ℝ (x - p) (z - p) = (1 / mu) * inner ℝ (L x - q) (L z - q) := by
+    rw [hxp, real_inner_smul_left, real_inner_comm, ← hadj, map_sub, hLp, real_inner_comm]
+  rw [e]
+  have : (1 / mu) * (mu * σ * f q + inner ℝ (L x - q) (L z - q)) ≤ (1 / mu) * (mu * σ * f (L z)) :=
+    mul_le_mul_of_nonneg_left h3 (by positivity)
+  have e1 : (1 / mu) * (mu * σ * f q) = σ * f q := by field_simp
+  have e2 : (1 / mu) * (mu * σ * f (L z)) = σ * f (L z) := by field_simp
+  linarith
+
+/-- Whole expression trees, any depth: if the leaves carry correct proximals and the side
+conditions hold, the proximal that `functional.py` derives node by node (translation, right and
+left scalar multiplication, quadratic perturbation / Bregman distance, default convex
+conjugate) is the proximal of the denoted functional for every step `σ > 0`. -/
+theorem C07.tree_prox (rsqrt : ℝ → ℝ)
+    (hr : ∀ t, 0 < t → 0 < rsqrt t ∧ rsqrt t * rsqrt t * t = 1) (t : PTree E) (hwf : t.WF) :
+    ∀ σ, 0 < σ → IsProx t.dom t.val σ (t.prox rsqrt σ) := by
+  induction t with
+  | leaf C f P => exact hwf
+  | trans t y ih =>
+    intro σ hσ
+    exact C07.prox_translation _ _ _ y σ (ih hwf σ hσ)
+  | argScale t s ih =>
+    intro σ hσ
+    exact C07.prox_arg_scaling _ _ _ s σ hwf.1
+      (ih hwf.2 _ (mul_pos hσ (mul_self_pos.mpr hwf.1)))
+  | leftScale t c ih =>
+    intro σ hσ
+    exact C07.prox_left_scaling _ _ _ c σ (ih hwf.2 _ (mul_pos hσ hwf.1))
+  | quad t a u ih =>
+    intro σ hσ
+    exact C07.prox_quadratic_perturbation _ _ _ rsqrt a σ u hwf.1 hσ
+      (hr _ (by nlinarith [hwf.1])) (ih hwf.2)
+  | conj t D fs ih =>
+    intro σ hσ
+    exact C07.prox_moreau _ _ D fs _ σ hσ hwf.1 (ih hwf.2 _ (by positivity))
+
+
+/-- Non-vacuity: the depth-4 example tree, every step. -/
+example : ∀ σ, 0 < σ → IsProx exTree.dom exTree.val σ
+    (exTree.prox (fun t => 1 / Real.sqrt t) σ) := by
+  apply C07.tree_prox
+  · intro t ht
+    have hs := Real.sqrt_pos.mpr ht
+    refine ⟨by positivity, ?_⟩
+    have := Real.mul_self_sqrt (le_of_lt ht)
+    field_simp; nlinarith
+  · exact ⟨by norm_num, by norm_num, by norm_num,
+      fun σ hσ => C07.l2_prox 2 σ 1 (by norm_num) hσ⟩
+
+end Comp
 
 /-! ## Kullback–Leibler (over ℝ, `np.sqrt` = `Real.sqrt`) -/
 
